@@ -209,6 +209,7 @@ func hierGetSub(r *ev.Run) {
 	var outcomes ev.Set
 	type res struct{ evals, nontriv int64 }
 	results := make([]res, 1<<nbits)
+	smp := &sampler{max: 2}
 	par.For(1<<nbits, func(pl int) {
 		m := hierBackend(hierStoreNames, pl)
 		for _, n := range hierQueryNames {
@@ -237,7 +238,7 @@ func hierGetSub(r *ev.Run) {
 						continue
 					}
 					if pl == 0b000010_001010 && n == "a/b/c" && op == "Get" {
-						r.Sample(map[string]any{"sub": "hier-get", "case": c, "placement": describePlacement(hierStoreNames, pl), "outcome": oc})
+						smp.add(r, map[string]any{"sub": "hier-get", "case": c, "placement": describePlacement(hierStoreNames, pl), "outcome": oc})
 					}
 					for k := 0; k < calls; k++ {
 						c.Fault = k
@@ -389,6 +390,7 @@ func hierFMSub(r *ev.Run) {
 	var outcomes ev.Set
 	type res struct{ evals, nontriv int64 }
 	results := make([]res, 1<<nbits)
+	smp := &sampler{max: 2}
 	par.For(1<<nbits, func(pl int) {
 		m := newHierFMPlan(storeNames, pl)
 		local := map[string]bool{}
@@ -413,7 +415,7 @@ func hierFMSub(r *ev.Run) {
 				continue
 			}
 			if pl == 0b00101_00010 && si%199 == 150 {
-				r.Sample(map[string]any{"sub": "hier-findmissing", "case": c, "placement": describePlacement(storeNames, pl), "outcome": oc})
+				smp.add(r, map[string]any{"sub": "hier-findmissing", "case": c, "placement": describePlacement(storeNames, pl), "outcome": oc})
 			}
 			if len(set) > faultMaxSet {
 				continue
